@@ -260,6 +260,7 @@ func (h *verifWHist) newToken(shape string) int {
 	mc.calls = calls
 	h.tokIds = append(h.tokIds, id)
 	h.tokById[id] = mc
+	mc.row0 = h.tokenRow(id, mc)
 	addr, _ := ToContractAddress(hex.EncodeToString(h.tokenIdBytes(id)))
 	h.sim.tokens[*addr] = mc
 	return id
@@ -334,13 +335,20 @@ func (h *verifWHist) newEvent(b *verifWBlock, tx *verifWTx, contract int, class 
 	if class == "attest" {
 		e.kind = "attest"
 		tid := 0
-		if len(h.tokIds) > 0 && !r.chance(1, 6) {
+		nativeOneIn := 6
+		if h.fam == "fields" {
+			nativeOneIn = 3 // (attestations of the all-zero token id, canonical and forged)
+		}
+		if len(h.tokIds) > 0 && !r.chance(1, nativeOneIn) {
 			tid = h.tokIds[r.below(len(h.tokIds))]
 		}
 		dec, sym, name := 18, "ALPH", "Alephium"
 		if tid != 0 {
 			mc := h.tokById[tid]
 			dec, sym, name = mc.dec, mc.sym, mc.name
+			if mc.prev != nil && r.chance(1, 2) {
+				dec, sym, name = mc.prev.dec, mc.prev.sym, mc.prev.name // what the token contract reported BEFORE it changed
+			}
 		}
 		switch r.below(10) {
 		case 0:
@@ -700,6 +708,14 @@ func (h *verifWHist) stepPoll(ps *verifWPollScript) {
 			want = append(want, h.sim.log[i].uid)
 		}
 	}
+	for i := int(fromPrev); i < int(newFrom) && i < len(h.sim.log); i++ {
+		if e := h.sim.log[i]; i >= 0 && e.kind == "attest" && e.attOK == 0 {
+			e.attOK = 2
+			if h.gtAttestValid(e) { // the token contract's answer at the moment the poll validated the attestation
+				e.attOK = 1
+			}
+		}
+	}
 	if fmt.Sprint(want) != fmt.Sprint(buids) {
 		h.flag("C09", "batch-differs", fmt.Sprintf("%s: batch %v, well-formed events of stream[%d..%d) are %v", hist, buids, fromPrev, newFrom, want))
 	}
@@ -844,8 +860,8 @@ func (h *verifWHist) stepTick(height int32, errAt map[string]int) {
 		if e.blk.ts+h.gtDuration(e) > hi+1500 {
 			h.flag("C08", "poll-wallclock", desc+fmt.Sprintf(" %d ms before the required hold time elapsed", e.blk.ts+h.gtDuration(e)-hi))
 		}
-		if e.kind == "attest" && !h.gtAttestValid(e) {
-			h.flag("C08", "poll-attest", desc+" although the attested metadata differs from the token contract's answer")
+		if e.kind == "attest" && (e.attOK == 2 || (e.attOK == 0 && !h.gtAttestValid(e))) {
+			h.flag("C08", "poll-attest", desc+" although the attested metadata differs from the token contract's answer"+h.attestWhy(e))
 		}
 		if !e.conv || e.index != 0 {
 			h.flag("C08", "poll-malformed", desc+" which is not a well-formed WormholeMessage event")
@@ -1013,7 +1029,7 @@ func (h *verifWHist) stepReobs(tx *verifWTx, errAt map[string]int, shortHash boo
 			h.flag("C08", key, desc+fmt.Sprintf(" %d ms before the required hold time elapsed", e.blk.ts+h.gtDuration(e)-hi))
 		}
 		if e.kind == "attest" && !h.gtAttestValid(e) {
-			h.flag("C08", "reobs-attest", desc+" although the attested metadata differs from the token contract's answer")
+			h.flag("C08", "reobs-attest", desc+" although the attested metadata differs from the token contract's answer"+h.attestWhy(e))
 		}
 		if !e.conv || e.index != 0 {
 			h.flag("C08", "reobs-malformed", desc+" which is not a well-formed WormholeMessage event")
@@ -1050,6 +1066,9 @@ func (h *verifWHist) randPoll() *verifWPollScript {
 }
 
 func (h *verifWHist) run() map[string]interface{} {
+	if h.fam == "tokscript" {
+		return h.runTokScript()
+	}
 	r := h.r
 	// world
 	base := int32(100 + r.below(50))
@@ -1126,6 +1145,8 @@ func (h *verifWHist) run() map[string]interface{} {
 			h.sim.mu.Lock()
 			h.newBlock(h.sim.height-int32(r.below(4)), verifWAgeSlots[r.below(len(verifWAgeSlots))], r.chance(1, 2))
 			h.sim.mu.Unlock()
+		case c >= 84 && c < 88 && h.changeableToken() != 0:
+			h.changeToken(h.changeableToken())
 		case c < 84 && len(h.txs) > 0:
 			// re-inclusion: a transaction of an orphaned block appears again in another block
 			tx := h.txs[r.below(len(h.txs))]
@@ -1224,35 +1245,7 @@ func (h *verifWHist) row() map[string]interface{} {
 	}
 	toks := []interface{}{}
 	for _, id := range h.tokIds {
-		mc := h.tokById[id]
-		var ans interface{} = "err"
-		if !mc.apiErr {
-			l := []interface{}{}
-			for _, c := range mc.calls {
-				if c.failed {
-					l = append(l, nil)
-					continue
-				}
-				rs := []interface{}{}
-				for _, v := range c.rets {
-					switch v.Typ {
-					case "ByteVec":
-						rs = append(rs, []interface{}{"b", v.Val})
-					case "U256":
-						rs = append(rs, []interface{}{"n", v.Val})
-					default:
-						rs = append(rs, []interface{}{"o"})
-					}
-				}
-				l = append(l, rs)
-			}
-			ans = l
-		}
-		trow := map[string]interface{}{"id": id, "ans": ans, "shape": mc.shape}
-		if h.fam == "fields" {
-			h.fieldsTokenRow(trow, id, mc)
-		}
-		toks = append(toks, trow)
+		toks = append(toks, h.tokById[id].row0) // the answer at the start; later changes are steps of the history ("tokchange")
 	}
 	logU := []int{}
 	for _, e := range h.sim.log {
@@ -1308,6 +1301,28 @@ func TestVerifWatcher(t *testing.T) {
 		}(i)
 	}
 	wg.Wait()
+	if os.Getenv("VERIF_W_NTOK") != "0" {
+		for i := 0; i < 9; i++ { // scripted: token metadata changing between attestations (zz_verifw_tok_test.go)
+			wg.Add(1)
+			sem <- struct{}{}
+			go func(i int) {
+				defer wg.Done()
+				defer func() { <-sem }()
+				h := verifWNewHist(200000+i, seed, "tokscript")
+				var row map[string]interface{}
+				func() {
+					defer func() {
+						if p := recover(); p != nil {
+							row = map[string]interface{}{"k": "hist", "id": 200000 + i, "harness_panic": fmt.Sprint(p) + "\n" + string(debug.Stack())}
+						}
+					}()
+					row = h.run()
+				}()
+				out.emit(row)
+			}(i)
+		}
+		wg.Wait()
+	}
 	verifWFieldsHistories(out, seed, &wg, sem)
 	out.emitNow(map[string]interface{}{"k": "progress", "phase": "histories-done", "n": n})
 	if os.Getenv("VERIF_W_NFH") != "0" {
@@ -1343,6 +1358,30 @@ func TestVerifWatcher(t *testing.T) {
 			}()
 			out.emit(row)
 		}(i)
+	}
+	if os.Getenv("VERIF_W_NGATE") != "0" {
+		for i := 0; i < verifWGateN(); i++ { // scripted free runs: a batch waiting at the hand-over while process() empties the pending map
+			gid := verifWGateBase + i
+			if (only != nil && !only[gid]) || skip[gid] {
+				continue
+			}
+			wg.Add(1)
+			sem <- struct{}{}
+			go func(gid int) {
+				defer wg.Done()
+				defer func() { <-sem }()
+				var row map[string]interface{}
+				func() {
+					defer func() {
+						if p := recover(); p != nil {
+							row = map[string]interface{}{"k": "run", "id": gid, "harness_panic": fmt.Sprint(p) + "\n" + string(debug.Stack())}
+						}
+					}()
+					row = verifWGateScenario(gid, seed, out)
+				}()
+				out.emit(row)
+			}(gid)
+		}
 	}
 	wg.Wait()
 	out.emitNow(map[string]interface{}{"k": "progress", "phase": "runs-done"})
